@@ -56,6 +56,12 @@ def expand(job):
                                (0, {"w": 1}), (DAY if i % 5 == 0 else 3600, {"w": -1}), (82800, {"h": 1}), (0, {"mi": -1})):
                     yield {"mode": sp, "p": tp_rec(rep, yy, a, b, sod=sod, zh=zh, zm=zm, xd=2 if yy < 0 else 0), "d": d,
                            "how": "add" if (i + sod) % 3 else "sub"}
+    elif k == "gen":       # (mode, point, duration) triples of MC_C01.tla's universe, emitted by TLC
+        for t in job["tuples"]:
+            mm, rep, y, a, b, sod, zh, zm, dd, hh, mi, ss = t
+            d = {k_: v for k_, v in (("d", dd), ("h", hh), ("mi", mi), ("s", ss)) if v}
+            yield {"mode": mm, "p": tp_rec(rep, y, a, b, sod=sod, zh=zh, zm=zm, xd=2 if y < 0 else 0), "d": d or {"s": 0},
+                   "how": ["add", "radd", "sub"][(y + a + sod + dd) % 3]}
     elif k == "cases":
         for c in job["cases"]:
             yield c
@@ -69,8 +75,30 @@ SWEEPS_T = SWEEPS_Q + [("gregorian", y) for y in (-1, 1, 1999, 2000, 2001, 2015,
     [(m, y) for m in ("360_day", "365day", "366_day") for y in (1999, 2001, 2004, 2020, 0)]
 
 
+def gen_tuples(seed, limit):
+    import shutil
+    import tempfile
+    from harness import tlc
+    scratch = tempfile.mkdtemp(prefix="isodt_gen_")
+    try:
+        r = tlc.model_check("MC_C01.tla", "Gen_C01.cfg", scratch, workers=4)
+        tuples = tlc.gen_lines(r["out"])
+    finally:
+        shutil.rmtree(scratch, ignore_errors=True)
+    if len(tuples) < 50000:
+        raise tlc.MachineryError("TLC generated only %d (point, duration) pairs" % len(tuples))
+    if limit:
+        random.Random(seed).shuffle(tuples)
+        tuples = tuples[:limit]
+    return tuples
+
+
 def jobs(tier, seed):
     out = []
+    tuples = gen_tuples(seed, 12000 if tier == "quick" else 0)
+    step = len(tuples) // 8 + 1
+    for i in range(8):
+        out.append({"kind": "gen", "tuples": tuples[i * step:(i + 1) * step]})
     if tier == "quick":
         for i, (sp, y) in enumerate(SWEEPS_Q):
             out.append({"kind": "sweep", "mode": sp, "y": y, "zone": [(0, 0), (5, 30), (-3, -30)][i % 3]})
